@@ -68,8 +68,12 @@ def rule_assembly(ctx, r):
         spec_i = [i for i, l in enumerate(lines) if SPEC in l]
         ok_cd = len(cd) == 1 and lines[cd[0]] == f"cd {tok('quote:' + WD)}"
         if len(cd) == 1 and not ok_cd:
-            r.violation(con + "::cd-quoted", f"the script changes directory with `{lines[cd[0]]}`: the working directory must be passed through shlex.quote "
-                        "(a directory name with a space or shell metacharacters breaks the job or is executed)", where)
+            if WD not in lines[cd[0]]:
+                r.violation(con + "::cd-quoted", f"the script changes directory with `{lines[cd[0]]}`, which is not the target's working directory ({WD}): a target with a working "
+                            "directory of its own (a template's, a sub-project's) runs its spec in the wrong place", where)
+            else:
+                r.violation(con + "::cd-quoted", f"the script changes directory with `{lines[cd[0]]}`: the working directory must be passed through shlex.quote "
+                            "(a directory name with a space or shell metacharacters breaks the job or is executed)", where)
         elif not cd:
             r.violation(con + "::cd", "the script never changes into the target's working directory", where)
         else:
@@ -297,6 +301,11 @@ def rule_resolution(ctx, r):
     it = PureInterp(ctx)
     res = it.call(ch, ({"a": 1, "b": 1}, {"b": 2, "c": 2}, {"c": 3}))
     r.check(res == {"a": 1, "b": 2, "c": 3}, f"{ch.module.relpath}::{ch.qual}", "later dictionaries override earlier ones", f"chain() gives {res}", ch.where)
+    # "every combination of option sources and values incl. None": a None at a higher-precedence level IS that level's value (the option is then omitted), 0 and "" too
+    res2 = it.call(ch, ({"queue": "normal", "account": "genomics", "cores": 4, "memory": "8g"}, {"queue": None, "cores": 0}, {"account": None, "memory": ""}))
+    r.check(res2 == {"queue": None, "account": None, "cores": 0, "memory": ""}, f"{ch.module.relpath}::{ch.qual}::none", "None / 0 / '' given at a higher level win like any other value",
+            f"chain(workflow defaults, template {{queue: None, cores: 0}}, target {{account: None, memory: ''}}) gives {res2}: an option resolved to None by the level with "
+            "precedence must be omitted from the script - here the lower level's value reaches the scheduler directive instead", ch.where)
     wf = idx.cls("gwf.workflow:Workflow")
     for meth, want in (("target", ["self.defaults", "options"]), ("target_from_template", ["self.defaults", "template.options", "options"])):
         m = idx.method(wf, meth)
@@ -317,10 +326,14 @@ def rule_log_cleaning(ctx, r):
     if isinstance(left, str) and "[not-modelled]" in left:
         from ..loader import AnalysisError
         raise AnalysisError(f"{con}: log cleaning cannot be evaluated ({left})")
-    r.check(left == want and set(listed) <= {f"{PROJ}/.gwf/logs"}, con, "removes exactly the logs of names in (log files - current target names)",
+    # (the lone `gone.stderr` - a pair of which one file is missing - may stay or go: the property says which logs may be deleted, and both of `old`'s must be)
+    ok_left = isinstance(left, list) and set(want) <= set(left) and not {"old.stdout", "old.stderr"} & set(left) and set(left) <= set(want) | {"gone.stderr"}
+    r.check(ok_left and set(listed) <= {f"{PROJ}/.gwf/logs"}, con, "removes exactly the logs of names in (log files - current target names)",
             f"with targets A, B, old.v2 and the logs A.stdout A.stderr B.stdout old.stdout old.stderr gone.stderr old.v2.stdout old.v2.stderr in {listed or '?'}, log cleaning leaves "
             f"{left}: it must remove exactly the logs of `old` and `gone` (targets that left the workflow) and never a log of a current target - `old.v2` is a current "
             "target whose name merely starts like a removed one", cl.where)
+    if r.instances and r.instances[-1].get("verdict") == "VIOLATION":
+        r.instances[-1]["from_witness"] = True       # an evaluated disk: not overridden by the run witness, whose project has no dotted names
     run_f = idx.func("gwf.plugins.run:run")
     from ..astutil import truth_table
     from ..index import ancestors
